@@ -3,7 +3,7 @@
    scenarios now illustrate the repaired behaviour, and stay in corpus/C08/w_*.json for the harness.) *)
 From Coq Require Import List NArith Bool Lia.
 From FIM Require Import Model.T8Graph Model.T8Ops Proofs.T8Frame Proofs.T8Query Proofs.T8Sound Proofs.T8Complete
-     Proofs.T8Handles Proofs.T8Fixed Proofs.T8Inv Proofs.T8Link Proofs.T8Prune Proofs.T8Art.
+     Proofs.T8Handles Proofs.T8Fixed Proofs.T8Inv Proofs.T8Link Proofs.T8Prune Proofs.T8Art Proofs.T8Eq.
 Import ListNotations.
 Open Scope N_scope.
 
@@ -273,3 +273,10 @@ Example ex_own_services_peer :
   topo_nodes G12 1 = [1] /\ sortN (disc_list G12 (node_interface_list G12 1)) = [4; 5] /\
   peer_cps G12 4 = [5] /\ type_of G12 4 = T_ServicePort.
 Proof. vm_compute. repeat split; reflexivity. Qed.
+
+Lemma WQ_G1 : WQ G1.
+Proof. apply wqb_sound. vm_compute. reflexivity. Qed.
+Lemma WQ_G12 : WQ G12.
+Proof. apply wqb_sound. vm_compute. reflexivity. Qed.
+Lemma WQ_G10 : WQ G10.
+Proof. apply wqb_sound. vm_compute. reflexivity. Qed.
